@@ -55,10 +55,74 @@ fn main() {
         std::process::exit(2);
     }
     let id = argv[1].as_str();
+    if id == "selftest-determinism" {
+        std::process::exit(selftest_determinism(&args));
+    }
     let Some(spec) = checks::spec(id) else {
         eprintln!("HARNESS ERROR: unknown check {id}");
         std::process::exit(2);
     };
     let code = driver::run_check(&spec, &args);
     std::process::exit(code);
+}
+
+/// Determinism proof obligation: N run seeds per check variant are executed twice in this
+/// process (interleaved with other work on other workers) and the complete event logs must be
+/// byte-identical; with `--dump-logs dir` the per-run log hashes are written out so that separate
+/// processes / worker counts can be diffed by the caller (`selftest.sh`).
+fn selftest_determinism(args: &driver::Args) -> i32 {
+    use std::sync::atomic::{AtomicUsize, Ordering};
+    use std::sync::{Arc, Mutex};
+    let per_variant = args.runs_override.unwrap_or(12);
+    let ids = ["C01", "C02", "C03", "C04", "C05", "C06", "C07", "C08", "C09", "C10", "C11", "C14", "C16", "C18", "C20", "C13"];
+    let mut jobs = vec![];
+    for id in ids {
+        let Some(spec) = checks::spec(id) else { continue };
+        for (vi, v) in spec.variants.iter().enumerate() {
+            for i in 0..per_variant {
+                let run_seed = seam::mix3(args.seed, driver::check_hash(id) ^ ((vi as u64) << 48), i as u64);
+                jobs.push((id, v.clone(), run_seed));
+            }
+        }
+    }
+    let jobs = Arc::new(jobs);
+    let next = Arc::new(AtomicUsize::new(0));
+    let results: Arc<Mutex<Vec<(String, u64, String, String)>>> = Arc::new(Mutex::new(vec![]));
+    let mut hs = vec![];
+    for _ in 0..args.workers {
+        let (jobs, next, results) = (jobs.clone(), next.clone(), results.clone());
+        hs.push(std::thread::Builder::new().stack_size(16 << 20).spawn(move || loop {
+            let j = next.fetch_add(1, Ordering::SeqCst);
+            if j >= jobs.len() {
+                break;
+            }
+            let (id, v, seed) = &jobs[j];
+            let mut v2 = v.clone();
+            v2.post = None;
+            let h = |o: Result<run::RunOutput, String>| match o {
+                Ok(out) => node::sha_hex(format!("{}\n{:?}\n{}", out.log.join("\n"), out.violations.iter().map(|x| (&x.clause, &x.detail)).collect::<Vec<_>>(), out.signature).as_bytes()),
+                Err(e) => format!("ERR {e}"),
+            };
+            let a = h(driver::exec_primary(&v2, genr::draw_cfg(*seed, &v.profile), None));
+            let b = h(driver::exec_primary(&v2, genr::draw_cfg(*seed, &v.profile), None));
+            results.lock().unwrap().push((format!("{id}/{}", v.name), *seed, a, b));
+        }).unwrap());
+    }
+    for h in hs {
+        let _ = h.join();
+    }
+    let mut res = results.lock().unwrap().clone();
+    res.sort();
+    let bad: Vec<_> = res.iter().filter(|r| r.2 != r.3).collect();
+    if let Some(d) = &args.dump_logs {
+        let _ = std::fs::create_dir_all(d);
+        let lines: Vec<String> = res.iter().map(|r| format!("{} {} {}", r.0, r.1, r.2)).collect();
+        let _ = std::fs::write(d.join(format!("hashes-w{}-p{}.txt", args.workers, std::process::id())), lines.join("\n"));
+    }
+    println!("determinism self-test: {} runs executed twice with {} workers, {} differing", res.len(), args.workers, bad.len());
+    for b in bad.iter().take(10) {
+        println!("NONDETERMINISTIC {} seed {}", b.0, b.1);
+    }
+    run::cleanup_all();
+    if bad.is_empty() { 0 } else { 2 }
 }
